@@ -209,6 +209,29 @@ class Project:
             self.modules[name] = mod
             self._index(mod)
         self._link_inherited()
+        self._spliced = {}
+
+    def spliced(self, func, keep=()):
+        """*func* with `for x in helper(..): body` over project generator helpers replaced by the helper's own loop with the body in
+        place of its `yield` (see inline_generators): receive loops, leaf iterators and ancestor walks may live in a helper.
+        Generators named in *keep* are left alone.  Cached per function."""
+        key = (func.qual, tuple(sorted(keep)))
+        hit = self._spliced.get(key)
+        if hit is not None:
+            return hit
+        out = func
+        if func.module.kind == "py" and any(isinstance(n, ast.For) for n in own_nodes(func.node)):
+            try:
+                from rules import common as _common
+
+                def resolve(owner, call):
+                    g = _common.resolve_callee(self, owner, call)
+                    return None if (g is None or g.node.name in keep) else g
+                out = inline_generators(self, func, resolve, depth=2)
+            except Exception:
+                out = func
+        self._spliced[key] = out
+        return out
 
     def _link_inherited(self):
         """Methods a class gets from project base classes (by base-class name: same module first, then any module)."""
@@ -497,9 +520,6 @@ def _local_names(fnode):
     for n in own_nodes(fnode):
         if isinstance(n, ast.Name) and isinstance(n.ctx, (ast.Store, ast.Del)):
             names.add(n.id)
-        elif isinstance(n, (ast.Import, ast.ImportFrom)):
-            for a in n.names:
-                names.add((a.asname or a.name).split(".")[0])
         elif isinstance(n, ast.ExceptHandler) and n.name:
             names.add(n.name)
     a = fnode.args
@@ -618,6 +638,306 @@ def inline_helpers(project, func, resolve, depth=2):
 
     new_node = copy.copy(func.node)
     new_node.body = splice(list(func.node.body), func, depth)
+    if counter[0] == 0:
+        return func
+    clone = Func(func.qual, new_node, func.module, func.cls, func.parent)
+    clone.inlined = counter[0]
+    return clone
+
+
+
+# ---------------------------------------------------------------------------
+# generator helpers: `for X in helper(args): BODY` with the helper's loop spliced in
+
+def _generator_plan(g):
+    """(prelude statements, the loop) of a generator helper that can be spliced into a `for` over it: a function whose body
+    is some straight-line statements followed by exactly one loop, with every `yield` (statement form, with a value) and every
+    `return` inside that loop but not inside a nested loop; no decorators, no *args/**kwargs, no `yield from`, no yield inside
+    try/finally or with (the consumer's body would run inside them).  None if it does not fit."""
+    fn = g.node
+    if fn.decorator_list or fn.args.vararg or fn.args.kwarg:
+        return None
+    body = list(fn.body)
+    if body and isinstance(body[0], ast.Expr) and isinstance(body[0].value, ast.Constant) and isinstance(body[0].value.value, str):
+        body = body[1:]
+    if not body or not isinstance(body[-1], (ast.For, ast.While)) or body[-1].orelse:
+        return None
+    loop = body[-1]
+    pre = body[:-1]
+    nodes = list(own_nodes(fn))
+    if any(isinstance(n, (ast.YieldFrom, ast.Global, ast.Nonlocal, ast.Await)) for n in nodes):
+        return None
+    ys = [n for n in nodes if isinstance(n, ast.Yield)]
+    if not ys or any(y.value is None for y in ys):
+        return None
+    for st in pre:
+        if any(isinstance(x, (ast.Yield, ast.Return)) for x in ast.walk(st)):
+            return None
+
+    def ok(stmts, in_inner_loop, in_guard):
+        for st in stmts:
+            if isinstance(st, ast.Expr) and isinstance(st.value, ast.Yield):
+                if in_inner_loop or in_guard:
+                    return False
+                continue
+            if any(isinstance(x, ast.Yield) for x in ast.walk(st)) and not isinstance(st, (ast.If, ast.For, ast.While, ast.Try, ast.With)):
+                return False          # a yield used as an expression
+            if isinstance(st, ast.Return):
+                if in_inner_loop:
+                    return False
+                continue
+            if isinstance(st, (ast.For, ast.While)):
+                if any(isinstance(x, (ast.Yield, ast.Return)) for x in ast.walk(st)):
+                    return False
+                continue
+            if isinstance(st, ast.If):
+                if not ok(st.body, in_inner_loop, in_guard) or not ok(st.orelse, in_inner_loop, in_guard):
+                    return False
+            elif isinstance(st, ast.Try):
+                has_y = any(isinstance(x, ast.Yield) for x in ast.walk(st))
+                if has_y:
+                    return False
+            elif isinstance(st, ast.With):
+                if any(isinstance(x, ast.Yield) for x in ast.walk(st)):
+                    return False
+        return True
+    if not ok(loop.body, False, False):
+        return None
+    return pre, loop
+
+
+def _is_tail(stmts, target):
+    """Is *target* the statement after which nothing more of this iteration runs (last of its block, recursively)?"""
+    if not stmts:
+        return False
+    last = stmts[-1]
+    if last is target:
+        return True
+    if isinstance(last, ast.If):
+        return _is_tail(last.body, target) or _is_tail(last.orelse, target)
+    return False
+
+
+def inline_generators(project, func, resolve, depth=1):
+    """A copy of *func* in which `for TARGET in helper(args): BODY` over a project generator helper (see _generator_plan) is
+    replaced by the helper's own loop with `TARGET = <yielded value>; BODY` in place of each `yield`, the helper's parameters and
+    locals renamed apart and its `return` turned into `break`.  Where the yield is not the last thing of an iteration, BODY's
+    `continue` must not skip what follows it: BODY then runs in a one-shot loop."""
+    import copy
+    counter = [0]
+
+    def own_level(stmts, kinds):
+        """statements of *kinds* that belong to this loop level (not to nested loops / functions)"""
+        out = []
+        for st in stmts:
+            if isinstance(st, kinds):
+                out.append(st)
+            if isinstance(st, (ast.For, ast.While, ast.FunctionDef, ast.AsyncFunctionDef, ast.ClassDef)):
+                continue
+            for fld in ("body", "orelse", "finalbody"):
+                if hasattr(st, fld) and isinstance(getattr(st, fld), list):
+                    out += own_level(getattr(st, fld), kinds)
+            if isinstance(st, ast.Try):
+                for h in st.handlers:
+                    out += own_level(h.body, kinds)
+        return out
+
+    def rewrite(stmts, owner, d):
+        out = []
+        for s in stmts:
+            done = False
+            if isinstance(s, ast.For) and not s.orelse and isinstance(s.iter, ast.Call) and d > 0:
+                g = resolve(owner, s.iter)
+                plan = _generator_plan(g) if (g is not None and g is not func and getattr(g.module, "kind", "py") == "py") else None
+                call = s.iter
+                if plan is not None and not any(isinstance(a, ast.Starred) for a in call.args) and not any(k.arg is None for k in call.keywords):
+                    pre, gloop = plan
+                    params = [x.arg for x in g.node.args.posonlyargs + g.node.args.args]
+                    bound = {}
+                    is_method = g.cls is not None and params and params[0] in ("self", "cls") and isinstance(call.func, ast.Attribute)
+                    rest = params[1:] if is_method else params
+                    if is_method:
+                        bound[params[0]] = call.func.value
+                    ok = len(call.args) <= len(rest)
+                    if ok:
+                        for p_, a_ in zip(rest, call.args):
+                            bound[p_] = a_
+                        for k in call.keywords:
+                            if k.arg in bound or (k.arg not in rest and k.arg not in [x.arg for x in g.node.args.kwonlyargs]):
+                                ok = False
+                            bound[k.arg] = k.value
+                        defaults = dict(zip(params[len(params) - len(g.node.args.defaults):], g.node.args.defaults))
+                        for x, dflt in zip(g.node.args.kwonlyargs, g.node.args.kw_defaults):
+                            if dflt is not None:
+                                defaults[x.arg] = dflt
+                        for p_ in rest + [x.arg for x in g.node.args.kwonlyargs]:
+                            if p_ not in bound:
+                                if p_ in defaults:
+                                    bound[p_] = defaults[p_]
+                                else:
+                                    ok = False
+                    if ok:
+                        counter[0] += 1
+                        pre_ = "_%s_%d__" % (g.node.name.strip("_"), counter[0])
+                        mapping = {nm: pre_ + nm for nm in _local_names(g.node)}
+                        if is_method and isinstance(bound[params[0]], ast.Name):
+                            mapping[params[0]] = bound[params[0]].id
+                        new = []
+                        stored = {x.id for x in own_nodes(g.node) if isinstance(x, ast.Name) and isinstance(x.ctx, (ast.Store, ast.Del))}
+                        for p_, a_ in bound.items():
+                            if isinstance(a_, ast.Name) and p_ not in stored:
+                                mapping[p_] = a_.id          # a plain variable handed in and never rebound: use it directly
+                        for p_, a_ in bound.items():
+                            if p_ in mapping and mapping[p_] == getattr(a_, "id", None):
+                                continue
+                            asg = ast.Assign(targets=[ast.Name(id=mapping.get(p_, pre_ + p_), ctx=ast.Store())], value=copy.deepcopy(a_))
+                            ast.copy_location(asg, s)
+                            ast.fix_missing_locations(asg)
+                            new.append(asg)
+                        ren = _Renamer(mapping)
+                        body_consumer = rewrite(list(s.body), owner, d)
+                        needs_once = bool(own_level(body_consumer, (ast.Continue, ast.Break)))
+                        flag = pre_ + "stop"
+
+                        def consumer_for(yield_stmt, tail):
+                            tgt = ast.Assign(targets=[copy.deepcopy(s.target)], value=copy.deepcopy(yield_stmt.value.value))
+                            ast.copy_location(tgt, yield_stmt)
+                            bc = copy.deepcopy(body_consumer)
+                            if tail or not needs_once:
+                                return [tgt] + bc
+                            # one-shot loop: continue -> leave the one-shot loop; break -> remember and leave, then leave the helper's loop
+                            class T(ast.NodeTransformer):
+                                def visit_For(self, n):
+                                    return n
+                                visit_While = visit_FunctionDef = visit_AsyncFunctionDef = visit_ClassDef = visit_For
+
+                                def visit_Continue(self, n):
+                                    return ast.copy_location(ast.Break(), n)
+
+                                def visit_Break(self, n):
+                                    a = ast.copy_location(ast.Assign(targets=[ast.Name(id=flag, ctx=ast.Store())], value=ast.Constant(value=True)), n)
+                                    return [a, ast.copy_location(ast.Break(), n)]
+                            bc = [T().visit(x) for x in bc]
+                            flat = []
+                            for x in bc:
+                                flat.extend(x if isinstance(x, list) else [x])
+                            init = ast.copy_location(ast.Assign(targets=[ast.Name(id=flag, ctx=ast.Store())], value=ast.Constant(value=False)), yield_stmt)
+                            once = ast.copy_location(ast.For(target=ast.Name(id=pre_ + "once", ctx=ast.Store()), iter=ast.Tuple(elts=[ast.Constant(value=0)], ctx=ast.Load()),
+                                                             body=flat or [ast.Pass()], orelse=[]), yield_stmt)
+                            chk = ast.copy_location(ast.If(test=ast.Name(id=flag, ctx=ast.Load()), body=[ast.Break()], orelse=[]), yield_stmt)
+                            return [tgt, init, once, chk]
+
+                        gl = ren.visit(copy.deepcopy(gloop))
+                        orig_body = gl.body
+
+                        def subst(stmts_):
+                            res_ = []
+                            for st in stmts_:
+                                if isinstance(st, ast.Expr) and isinstance(st.value, ast.Yield):
+                                    res_.extend(consumer_for(st, _is_tail(orig_body, st)))
+                                    continue
+                                if isinstance(st, ast.Return):
+                                    res_.append(ast.copy_location(ast.Break(), st))
+                                    continue
+                                if isinstance(st, (ast.For, ast.While)):
+                                    res_.append(st)
+                                    continue
+                                st2 = copy.copy(st)
+                                for fld in ("body", "orelse", "finalbody"):
+                                    if hasattr(st2, fld) and isinstance(getattr(st2, fld), list) and not isinstance(st2, (ast.FunctionDef, ast.AsyncFunctionDef, ast.ClassDef)):
+                                        setattr(st2, fld, subst(getattr(st2, fld)))
+                                if isinstance(st2, ast.Try):
+                                    hs = []
+                                    for h in st2.handlers:
+                                        h2 = copy.copy(h)
+                                        h2.body = subst(h.body)
+                                        hs.append(h2)
+                                    st2.handlers = hs
+                                res_.append(st2)
+                            return res_
+                        gl.body = subst(orig_body)
+                        ast.copy_location(gl, s)
+                        hb = [ren.visit(copy.deepcopy(x)) for x in pre]
+                        for x in new + hb + [gl]:
+                            ast.fix_missing_locations(x)
+                        out.extend(new + hb + [gl])
+                        done = True
+            if done:
+                continue
+            s2 = copy.copy(s)
+            for fld in ("body", "orelse", "finalbody"):
+                if hasattr(s2, fld) and isinstance(getattr(s2, fld), list) and not isinstance(s2, (ast.FunctionDef, ast.AsyncFunctionDef, ast.ClassDef)):
+                    setattr(s2, fld, rewrite(getattr(s2, fld), owner, d))
+            if isinstance(s2, ast.Try):
+                hs = []
+                for h in s2.handlers:
+                    h2 = copy.copy(h)
+                    h2.body = rewrite(h.body, owner, d)
+                    hs.append(h2)
+                s2.handlers = hs
+            out.append(s2)
+        return out
+
+    # `items = helper(args)` ... `for X in items:` with `items` used nowhere else is the same loop
+    base = func.node
+    assigns = {}
+    uses = {}
+    for n in own_nodes(base):
+        if isinstance(n, ast.Assign) and len(n.targets) == 1 and isinstance(n.targets[0], ast.Name) and isinstance(n.value, ast.Call):
+            assigns.setdefault(n.targets[0].id, []).append(n)
+        if isinstance(n, ast.Name) and isinstance(n.ctx, ast.Load):
+            uses[n.id] = uses.get(n.id, 0) + 1
+    direct = {}
+    for nm, lst in assigns.items():
+        if len(lst) == 1 and uses.get(nm, 0) == 1:
+            g0 = resolve(func, lst[0].value)
+            if g0 is not None and _generator_plan(g0) is not None:
+                loops = [m for m in own_nodes(base) if isinstance(m, ast.For) and isinstance(m.iter, ast.Name) and m.iter.id == nm]
+                if len(loops) == 1:
+                    direct[nm] = (lst[0], loops[0])
+    if direct:
+        class D(ast.NodeTransformer):
+            def visit_Assign(self, n):
+                for nm, (a, l) in direct.items():
+                    if n is a:
+                        return None
+                return n
+
+            def visit_For(self, n):
+                self.generic_visit(n)
+                for nm, (a, l) in direct.items():
+                    if n is l:
+                        n2 = copy.copy(n)
+                        n2.iter = a.value
+                        return n2
+                return n
+        base = D().visit(copy.deepcopy(func.node)) if False else None
+        # (identity-based matching needs the original nodes: rebuild by a manual walk)
+        def rebuild(stmts):
+            out_ = []
+            for st in stmts:
+                if any(st is a for a, l in direct.values()):
+                    continue
+                st2 = copy.copy(st)
+                if any(st is l for a, l in direct.values()):
+                    st2.iter = [a.value for a, l in direct.values() if l is st][0]
+                for fld in ("body", "orelse", "finalbody"):
+                    if hasattr(st2, fld) and isinstance(getattr(st2, fld), list) and not isinstance(st2, (ast.FunctionDef, ast.AsyncFunctionDef, ast.ClassDef)):
+                        setattr(st2, fld, rebuild(getattr(st2, fld)))
+                if isinstance(st2, ast.Try):
+                    hs = []
+                    for h in st2.handlers:
+                        h2 = copy.copy(h)
+                        h2.body = rebuild(h.body)
+                        hs.append(h2)
+                    st2.handlers = hs
+                out_.append(st2)
+            return out_
+        body0 = rebuild(list(func.node.body))
+    else:
+        body0 = list(func.node.body)
+    new_node = copy.copy(func.node)
+    new_node.body = rewrite(body0, func, depth)
     if counter[0] == 0:
         return func
     clone = Func(func.qual, new_node, func.module, func.cls, func.parent)
